@@ -29,6 +29,18 @@ def check(index, ctx):
         mains = _pipe.main_paths(run)
         if not mains:
             ctx.undecided("R1", run.label, "no non-empty returning path", entry.loc())
+        # coverage on EVERY returning path: a collection that the path did not find empty receives its .grad, whatever the other one is
+        for res in run.returning():
+            if _pipe.blocking(res):
+                continue
+            empties = _pipe.empty_atoms(res)
+            written = {a for e in _pipe.evs(res, "grad_write") for a in e["target"]}
+            for atom_, what in ((ta, "task-specific"), (sa, "shared")):
+                if atom_ in empties or atom_ in written:
+                    continue
+                ctx.violated("R1", f"{run.entry}: {what} parameters {atom_} receive no .grad on a returning path",
+                             f"path [{res.describe_path()[-120:]}] returns without writing the .grad of {atom_} although nothing on it says that collection is empty "
+                             f"(collections found empty on this path: {sorted(empties) or 'none'})", entry.loc())
         for res in mains:
             n_main += 1
             key = f"{run.label} path[{res.describe_path()[-100:]}]"
